@@ -23,7 +23,11 @@ def run(chk):
     chk.rule("PLUMB", "preserve_collinear_/reverse_solution_ written only by their setters; preserve_collinear_ reaches CleanCollinear and TrimHorz; "
              "OutRec::path built only in CheckBounds; polytree children created from outrec->path")
     chk.rule("GUARD", "BuildPath64/D: degenerate-ring guard table; copy loop appends only vertices different from the last appended")
+    chk.rule("POLY.cross", "CrossProductSign / IsCollinear / ProductsAreEqual compare two products whose difference is identically the cross product "
+             "(pt2-pt1)x(pt3-pt2); portable path: magnitudes and signs of the same factors; 128-bit tail returns sign(ab-cd) / (ab==cd) on every ordering")
     chk.rule("T.removal", "CleanCollinear removes a vertex iff collinear and (duplicate of a neighbour or !PreserveCollinear or reversal)")
+    chk.rule("POLY.measure", "CrossProduct, DotProduct, DistanceSqr, PerpendicDistFromLineSqrd, GetClosestPointOnSegment equal their defining "
+             "real-number formulas (identity of polynomial normal forms; rounding not decided)")
     chk.rule("INT64.product", "no product is formed in a signed 64-bit integer type: the collinearity / spike tests of CleanCollinear (CrossProduct, "
              "DotProduct) must not wrap for large coordinates")
     chk.rule("T.point-equality", "Point::operator== is true iff x and y agree (z ignored): the repeated-vertex tests of CleanCollinear and the builders "
@@ -43,6 +47,9 @@ def run(chk):
         from ..engines import e9_safety as e9
         e9.rule_int64_product(db, chk, cfg)
         e10.rule_removal_restart(db, chk, cfg)
+        from ..engines import e14_poly as e14
+        e14.rule_cross(db, chk, cfg)
+        e14.rule_measure(db, chk, cfg)
         e6.rule_64_d(db, chk, cfg, only=("BuildPath64", "Clipper64::BuildPaths64", "Clipper64::BuildTree64"))
     n = len(cfgs)
     chk.floor("PRECEDE", 7 * n)
